@@ -124,6 +124,15 @@ def handleObs (line : String) (toks : List String) : M Unit := do
       count "prove" line
       expectEq "prove" exp (" ".intercalate res)
     | none => parseError line
+  | [_impl, "pdump", nodes, mapped] =>
+    -- the pointer forest holds exactly the nodes of the specification forest (an empty root
+    -- is a childless node with the zero hash) and maps every live leaf to its position
+    let specNodes := (I.byPos.toList.map (fun (p, (h, l)) => (p, h, l || h == H256.zero))).mergeSort (fun a b => a.1 ≤ b.1)
+    let expN := if specNodes.isEmpty then "-" else ",".intercalate (specNodes.map (fun (p, h, l) => s!"{p}:{hx h}:{b01 l}"))
+    let specLeaves := (I.byLeaf.toList.map (fun (h, p) => (enc rows p, h))).mergeSort (fun a b => a.1 ≤ b.1)
+    let expM := if specLeaves.isEmpty then "-" else ",".intercalate (specLeaves.map (fun (p, h) => s!"{p}:{hx h}"))
+    count "pdump" line (I.n > 0)
+    expectEq "pdump" s!"{expN} {expM}" s!"{nodes} {mapped}"
   | [_impl, "count", a, b] =>
     let s ← get
     let live := s.forest.liveLeaves.length
